@@ -269,6 +269,28 @@ func (s *Server) Hash() [32]byte {
 	return out
 }
 
+// ExecScript runs a (multi-statement) SQL script directly against the engine,
+// in one transaction, bypassing protocol and gate. It is meant for tests and tools.
+func (s *Server) ExecScript(sql string) error {
+	ss := &session{srv: s, stmts: map[string]*pstmt{}, portals: map[string]*portal{}, abort: make(chan struct{})}
+	s.mu.Lock()
+	stmts, err := parseSQL(sql)
+	for _, st := range stmts {
+		if err != nil {
+			break
+		}
+		_, err = ss.execStmt(st, nil, nil, sql)
+	}
+	if err != nil {
+		ss.endTx(false)
+	} else if ss.tx != nil {
+		ss.endTx(true)
+	}
+	s.mu.Unlock()
+	s.drainEvents()
+	return err
+}
+
 // ---- connections ----
 
 func (s *Server) newSession() *session {
@@ -334,7 +356,7 @@ func (s *Server) ServeTCP(l net.Listener) error {
 
 func (s *Server) serveConn(c net.Conn) {
 	ss := s.newSession()
-	ss.onKill = func() { c.Close() }
+	ss.onKill = func(error) { c.Close() }
 	defer func() {
 		s.mu.Lock()
 		ss.kill(errConnClosed)
